@@ -749,6 +749,15 @@ impl CliCase {
             // a crash is not a reproducibility violation as long as it reproduces
             return Ok(());
         }
+        if r.timed_out && self.args.iter().any(|a| a == "-a") {
+            if let CliKind::Fzn(m) = &self.kind {
+                // printing every solution of a model with thousands of them takes the (unoptimised)
+                // binary longer than the limit of a run: slow, not stuck
+                if m.solutions().len() > 1500 {
+                    return Ok(());
+                }
+            }
+        }
         if r.timed_out && !terminates(&self.args) {
             // no termination argument for this configuration (restarts every few conflicts
             // with a learned-clause database that is emptied): slow or no progress is legitimate,
